@@ -17,14 +17,12 @@ import ChfVerif.Spec.AbmfSpec
 namespace Chf.Props.C07
 open Chf Chf.Abmf
 
-/-- what the reply and the addressed account look like after a request on a known account -/
 theorem handle_known {st : Store} {c : CCR} {q : Quota} {quota : Int}
     (hf : find st (subscriberId c) c.rg = some q) (hp : q.parse = some quota) :
     handleCCR st c =
       (put st (subscriberId c) c.rg (.num (effect quota c).1),
-       .answer c.sess c.reqType c.reqNum (effect quota c).2.1 (effect quota c).2.2) := by
-  unfold handleCCR
-  rw [hf]; simp only [hp]
+       .answer c.sess c.reqType c.reqNum (effect quota c).2.1 (effect quota c).2.2) :=
+  handleCCR_known hf hp
 
 /-- Reservation against a non-negative balance. -/
 theorem C07_reserve {st : Store} {c : CCR} {q : Quota} {quota : Int}
